@@ -57,7 +57,7 @@ SVG = [({'xmldecl': False}, ['--no-xmldecl']), ({'svgns': False}, ['--no-namespa
        ({'svgclass': 'c1'}, ['--svgclass', 'c1']), ({'lineclass': 'l1'}, ['--lineclass', 'l1']), ({'omitsize': True}, ['--no-size']),
        ({'unit': 'mm'}, ['--unit', 'mm']), ({'svgversion': 1.1}, ['--svgversion', '1.1']), ({'svgversion': 2.0}, ['--svgversion', '2']),
        ({'encoding': 'iso-8859-1'}, ['--svgencoding', 'iso-8859-1']), ({'draw_transparent': True}, ['--draw-transparent']),
-       ({'svgclass': None, 'lineclass': None}, ['--no-classes'])]
+       ({'svgclass': None, 'lineclass': None}, ['--no-classes']), ({'desc': '\u20ac uro \u4e66'}, ['--desc', '\u20ac uro \u4e66'])]
 MENU = {
     'svg': COMMON + DARK + LIGHT + TRANS + MODCOL[:4] + SVG,
     'svgz': COMMON[:2] + DARK[:1] + LIGHT + SVG[:4],
@@ -80,6 +80,8 @@ SYMBOLS = {
     '7H': ('Structured text for version seven, level H', ['-v', '7', '-e', 'h'], dict(version=7, error='H')),
     '1M0': ('HELLO WORLD', ['--error', 'M', '--pattern', '0'], dict(error='M', mask=0)),
     'uL': ('12345', ['--micro', '-e', 'L'], dict(micro=True, error='L')),
+    'enc': ('12345', ['--encoding', 'utf-8'], dict(encoding='utf-8')),
+    'encK': ('\u6f22\u5b57', ['--encoding', 'shift_jis', '--error', 'M'], dict(encoding='shift_jis', error='M')),
 }
 CORE_SYMBOLS = ('M2', '1L', '7H')
 SEQ = ('ABCDEFGHIJKLMNOPQRSTUVWXYZ0123456789ABCDEFGHIJKLMNOPQRSTUVWXYZ', ['--seq', '--version', '1', '--error', 'M'], dict(version=1, error='M'))
@@ -322,7 +324,9 @@ def unknown_case(acc, tmp):
     qr = api_symbol('1L')
     seq = segno.make_sequence(SEQ[0], **SEQ[2])
     for target, desc in ((os.path.join(tmp, 'x.xyz'), 'path .xyz'), (os.path.join(tmp, 'noext'), 'path without extension'),
-                         (os.path.join(tmp, 'x.svg.bak'), 'path .bak')):
+                         (os.path.join(tmp, 'x.svg.bak'), 'path .bak'), (os.path.join(tmp, 'x.pngx'), 'path .pngx'),
+                         (os.path.join(tmp, 'x.text'), 'path .text'), (os.path.join(tmp, 'x.svgzz'), 'path .svgzz'), (os.path.join(tmp, 'x.pd'), 'path .pd'),
+                         (os.path.join(tmp, 'x.epsf'), 'path .epsf')):
         for obj, what in ((qr, 'QRCode'), (seq, 'QRCodeSequence')):
             case = ('unknown',)
             try:
@@ -335,7 +339,7 @@ def unknown_case(acc, tmp):
             except Exception as e:
                 acc.eval(('unknown', desc, what), nontrivial=True, outcome=C.exc_name(e))
                 acc.violation('unknown-extension-exception', '%s.save(%s) raised %s instead of ValueError' % (what, desc, C.exc_name(e)), case)
-    for k in ('xyz', '', 'svgx'):
+    for k in ('xyz', '', 'svgx', 'pngx', 'pdfa', 'tx', 'svgzz'):
         try:
             qr.save(io.BytesIO(), kind=k)
             acc.violation('unknown-kind-accepted', 'save(stream, kind=%r) accepted' % k, ('unknown',))
